@@ -73,6 +73,35 @@ def _div_guard(f, blk, pair, dom):
                 o2 = [RU.uncast(f, a) for a in s_["a"]]
                 if all(o is not None and o["k"] == "var" for o in o2) and (f.canon(o2[0]["n"]), f.canon(o2[1]["n"])) == pair:
                     return True
+    # the same test written as a product: `(a / b) * b == a` (the quotient directly or through a single-assignment local)
+    for c_, p_, b_ in RU.guards(f, ev_, dom):
+        if _is_product_test(f, c_, p_, pair):
+            return True
+    return False
+
+
+def _is_quotient(f, n, pair):
+    n = RU.uncast(f, n)
+    if n is not None and n["k"] == "var" and n["n"] in f.aliases():
+        n = RU.uncast(f, f.aliases()[n["n"]])
+    if n is None or n["k"] != "bin" or n["op"] != "/":
+        return False
+    o = [RU.uncast(f, a) for a in n["a"]]
+    return all(x is not None and x["k"] == "var" for x in o) and (f.canon(o[0]["n"]), f.canon(o[1]["n"])) == pair
+
+
+def _is_product_test(f, cond, pol, pair):
+    t = RU.cmp_norm(f, cond, pol)
+    if not t or t[1] != "==" or t[2] is None:
+        return False
+    for prod, whole in ((t[0], t[2]), (t[2], t[0])):
+        prod, whole = RU.uncast(f, prod), RU.uncast(f, whole)
+        if prod is None or whole is None or whole["k"] != "var" or f.canon(whole["n"]) != pair[0] or prod["k"] != "bin" or prod["op"] != "*":
+            continue
+        for q, d in ((prod["a"][0], prod["a"][1]), (prod["a"][1], prod["a"][0])):
+            d = RU.uncast(f, d)
+            if d is not None and d["k"] == "var" and f.canon(d["n"]) == pair[1] and _is_quotient(f, q, pair):
+                return True
     return False
 
 
@@ -186,6 +215,11 @@ def analyse(ctx, replace=None, only=None):
         f = P.fn(nm)
         if R.require(f is not None, "%s not found" % nm):
             R.fn(f)
+            cs = [e for e in f.calls() if e.node.get("callee", "").startswith("aws_") and "u64" in e.node["callee"]]
+            if not cs:
+                # not a dispatcher: the body computes on size_t itself and answers to the specification directly
+                spec_check(R, P, f, op, kind, "SPEC", "size_t-direct")
+                continue
             if kind == "checked":
                 spec_check(R, P, f, op, kind, "SPEC", "size_t", hooks=h)
             for r_ in f.returns():
@@ -451,7 +485,24 @@ def convert(R, P):
             continue
         pair = (f.canon(ops[0]["n"]), f.canon(ops[1]["n"]))
         blk = num.elem_of.get(nd["id"], (None,))[0]
-        okg = _div_guard(f, blk, pair, dom)
+        # a quotient kept in a single-assignment local is `applied` where the local is used: those uses carry the obligation
+        # (the divisibility test written as `q * b == a` is itself such a use and needs no guard)
+        holder = [k for k, v in f.aliases().items() if v is not None and RU.uncast(f, v) is nd]
+        if holder:
+            okg, nuse = True, 0
+            for b2 in f.blocks.values():
+                cond_is_test = b2.cond is not None and (_is_product_test(f, b2.cond, True, pair) or _is_product_test(f, b2.cond, False, pair))
+                for el in b2.elems:
+                    if el["k"] == "decl" and any(v["n"] == holder[0] for v in el["vars"]):
+                        continue
+                    for u in f.walk(el):
+                        if u["k"] == "var" and u["n"] == holder[0]:
+                            nuse += 1
+                            in_test = cond_is_test and any(x is u for x in f.walk(f.d(b2.cond)))
+                            okg = okg and (in_test or _div_guard(f, b2.id, pair, dom))
+            okg = okg and nuse >= 1
+        else:
+            okg = _div_guard(f, blk, pair, dom)
         R.check(okg, "CONVERT", "frequency-ratio-only-when-exact:%s/%s" % pair, "include/aws/common/clock.inl:%d" % nd.get("loc", [0])[0], "`%s / %s` is computed only under `%s %% %s == 0`" % (pair + pair),
                 "`%s / %s` is computed without the divisibility test of that pair: for frequencies that are not multiples of each other the truncated ratio is applied to the ticks (2999999 ticks at 3 MHz convert to 998999667 ns instead of 999999666)" % pair)
     R.check(okd, "CONVERT", "frequencies-asserted-before-division", "%s()" % f.name, "both frequencies are asserted non-zero before any division (%d divisions)" % len(divs),
